@@ -129,6 +129,21 @@ def prepare_examples(ctx, extreme_rain=True):
             sl[i] = l[:62] + "10" + l[64:67] + "0.3" + "06" + l[72:]
             break
     open(sp, "w").write("\n".join(sl))
+    # a stand whose roots reach the last (20th) layer (shipped soils stop at 13-15 dm, shipped rotations of myP are
+    # maize/soy): project myP gets soil 075 with RootDepth 20 and winter wheat from the second year on
+    mp = os.path.join(ex, "project", "myP")
+    open(os.path.join(mp, "soil_myP.csv"), "w").write(
+        "SID,C_org,Texture,LayerDepth,BulkDensityClass,Stone,C/N,C/S,RootDepth,NumberHorizon,FieldCapacity,WiltingPoint,PoreVolume,Sand,Silt,Clay,DrainageDepth,Drainage%,GroundWaterLevel\n"
+        "075,0.90,SL2,03,3,00,10,00,20,02,22,09,38,73,21,06,20,00,99\n"
+        "075,0.30,SL4,20,3,00,10,00,,,22,12,43,61,27,12,20,00,   \n")
+    open(os.path.join(mp, "crop_myP.txt"), "w").write(
+        "Field_ID    crp  sowing harvst Rex yld autorg variety comment\n"
+        "SOYSM1    SM  05151980 09311980 080 050 0 \n" +
+        "".join("SOYSM1    WW  1010%d 0810%d 000 000 0 \n" % (y, y + 1) for y in range(1980, 1998)) + "end\n")
+    open(os.path.join(mp, "til_myP.txt"), "w").write(
+        "Field_ID  Ti Typ date\n          cm\n" + "".join("SOYSM1     5 1   0901%d\n" % y for y in range(1981, 1998)) + "end\n")
+    open(os.path.join(mp, "fert_myP.txt"), "w").write(
+        "Field_ID  N   Frt date\n" + "".join("SOYSM1    120 RM  0320%d\n" % y for y in range(1981, 1998)) + "end\n")
     if extreme_rain:
         rnd = random.Random(ctx.seed)
         src = os.path.join(ex, "weather", "historical")
@@ -158,9 +173,10 @@ TRACE_LINES = [
     ("project=ex3 WeatherFolder=extreme soilId=075 fcode=109_120 plotNr=10001 Altitude=73 Latitude=52.6732 poligonID=29872 ETpot=2", "EN"),
     ("project=zuc WeatherFolder=extreme fcode=109_120 plotNr=10001 soilId=001 Altitude=73 Latitude=52.6732 poligonID=29872 ETpot=4", "DE"),
     ("project=ex1 WeatherFolder=historical soilId=160 fcode=109_120 plotNr=10002 Altitude=73 Latitude=52.6728 poligonID=29873 ETpot=3", "EN"),
+    ("project=ex3 WeatherFolder=historical soilId=075 fcode=109_120 plotNr=10001 Altitude=73 Latitude=52.6732 poligonID=29872 PTF=2", "EN"),
+    ("project=myP WeatherFolder=extreme soilId=075 plotNr=10001 Altitude=73 Latitude=52.6732 poligonID=29872 ETpot=2 AutoIrrigation=0", "EN"),
     ("project=bulk WeatherFolder=extreme soilId=002 fcode=109_120 plotNr=10001 Altitude=73 Latitude=52.6732 poligonID=29872", "EN"),
     ("project=rue WeatherFolder=historical fcode=109_121 plotNr=10002 soilId=001 Altitude=46 Latitude=52.6431 poligonID=30169", "DE"),
-    ("project=myP WeatherFolder=extreme soilId=075 plotNr=10001 Altitude=73 Latitude=52.6732 poligonID=29872 ETpot=2", "EN"),
     ("project=ex1 WeatherFolder=extreme soilId=041 fcode=109_121 plotNr=10001 Altitude=73 Latitude=52.6680 poligonID=29876 ETpot=1", "EN"),
 ]
 
@@ -177,7 +193,7 @@ def run_trace(ctx, water_every=None):
     """traced runs of shipped projects (scratch copy) -> (rc, cases, oracle lines, stderr)"""
     import os
     ex = prepare_examples(ctx)
-    nl, endy = (8, 1995) if ctx.thorough else (4, 1982)
+    nl, endy = (9, 1995) if ctx.thorough else (6, 1982)
     lf = os.path.join(ctx.work, "trace_lines.txt")
     with open(lf, "w") as f:
         f.write("\n".join(trace_lines(ctx, nl, endy)) + "\n")
